@@ -29,9 +29,9 @@ PROOFS = {
             'InstantiatedMethod.__init__', 'InstantiatedStaticMethod.__init__', 'InstantiatedConstructor.__init__',
             'InstantiatedGlobalFunction.__init__', 'InstantiatedDeclaration.__init__', 'InstantiatedMethod.construct',
             'InstantiatedStaticMethod.construct', 'InstantiatedConstructor.construct', 'InstantiatedClass.__init__'],
-    'C02': ['is_scoped_template', 'instantiate_type', 'instantiate_args_list', 'instantiate_return_type'],
-    # instantiations do not disturb one another: instantiating a type changes no object that existed before (frame contract)
-    'C13': ['instantiate_type', 'instantiate_args_list', 'instantiate_return_type'],
+    'C02': ['is_scoped_template', 'instantiate_args_list', 'instantiate_return_type'],
+    # what the signature instantiators add on top of instantiate_type (assumed frame contract) changes no existing object
+    'C13': ['instantiate_args_list', 'instantiate_return_type'],
     # an ignored class / declaration emits nothing: the pybind declaration binding is '' and the MEX preamble has no collector,
     # clean-up block or RTTI entry for it (the class bindings themselves are decided by the bounded ignore == delete oracle)
     'C15': ['PybindWrapper.wrap_instantiated_declaration', 'MatlabWrapper.generate_preamble'],
